@@ -9,10 +9,22 @@ pub struct PropDef {
     pub replay: fn(&Ctx, &Value, &mut Stats) -> Result<(), String>,
 }
 
+pub mod c01;
+pub mod c02;
+pub mod c06;
+pub mod c07;
+pub mod c23;
+pub mod c24;
 pub mod c35;
 
 pub fn all() -> Vec<PropDef> {
     vec![
+        PropDef { id: "C01", run: c01::run, replay: c01::replay },
+        PropDef { id: "C02", run: c02::run, replay: c02::replay },
+        PropDef { id: "C06", run: c06::run, replay: c06::replay },
+        PropDef { id: "C07", run: c07::run, replay: c07::replay },
+        PropDef { id: "C23", run: c23::run, replay: c23::replay },
+        PropDef { id: "C24", run: c24::run, replay: c24::replay },
         PropDef { id: "C35", run: c35::run, replay: c35::replay },
     ]
 }
